@@ -37,7 +37,7 @@ for d in sorted(glob.glob(os.path.join(ROOT, "C*"))):
     meta = {
         "id": c["id"],
         "breaks_property": c["property"],
-        "round": 6 if "r6" in c["id"] else 5 if "r5" in c["id"] else 4 if "r4" in c["id"] else 3 if "r3" in c["id"] else 2 if "r2" in c["id"] else 1,
+        "round": 7 if "r7" in c["id"] else 6 if "r6" in c["id"] else 5 if "r5" in c["id"] else 4 if "r4" in c["id"] else 3 if "r3" in c["id"] else 2 if "r2" in c["id"] else 1,
         "files_changed": files,
         "needs_to_manifest": section(notes, "needs to manifest", "manifest", "condition") or section(notes, "why it breaks"),
         "origin": "written by a fresh sub-agent that was given only the text of the property and its own scratch git worktree of /repo",
